@@ -24,6 +24,22 @@ fn touch_world() {
     }
 }
 
+/// A loop that waits for another thread (`while *flag == 0 { }`) makes the space of schedules
+/// cyclic: with this switch on, every pass of every loop first yields to the scheduler (loom
+/// then lets the other threads run before it comes back), so such a wait ends when the
+/// other thread's write takes effect - and never ends when it does not.
+static SPIN_YIELD: std::sync::atomic::AtomicBool = std::sync::atomic::AtomicBool::new(false);
+
+pub fn set_spin_yield(on: bool) {
+    SPIN_YIELD.store(on, std::sync::atomic::Ordering::SeqCst);
+}
+
+pub(crate) fn loop_point() {
+    if SPIN_YIELD.load(std::sync::atomic::Ordering::SeqCst) {
+        loom::thread::yield_now();
+    }
+}
+
 /// What the threads of one execution did with the cell locks, as far as loom's `RwLock`
 /// does not model it: std's lock prefers writers, so a thread that takes a read lock it
 /// already holds deadlocks when another thread asks for the write lock in between.
